@@ -161,6 +161,9 @@ def message_type(msg_type: str, fields: List[str]):
     def __init__(self, *args, **kwargs):
         if args and kwargs:
             raise ValueError("Use positional or keyword arguments, but not " "both")
+        # All fields must exist, even when not given, for _simple_repr to work
+        for f in fields:
+            setattr(self, f, None)
         if args:
             if len(args) != len(fields):
                 raise ValueError("Wrong number of positional arguments")
